@@ -329,9 +329,13 @@ func Families(tier string) []Family {
 	// conserve-n: what ends the intake of typed multi-value options stays in remaining (C03)
 	{
 		f := Family{Name: "conserve-n"}
-		toks := Ts("--n", "--f", "--m", "1", "1.5", "k=v", "a", "", "--", "--b", "cmd")
+		// -5, -2.5, --u=k=v: undeclared option tokens that would also pass the type check of the value intake
+		toks := Ts("--n", "--f", "--m", "1", "1.5", "k=v", "a", "", "--", "--b", "cmd", "-5", "-2.5", "--u=k=v")
 		for mode := 0; mode < 3; mode++ {
-			for _, um := range []int{0, 2} {
+			for _, um := range []int{0, 1, 2} {
+				if um == 1 && mode != 0 {
+					continue
+				}
 				c := Cfg{Mode: mode, Late: mode == 1}
 				c.Nodes = []NodeCfg{rootNode(um, false), cmdNode("cmd", 1, um, false, true)}
 				c.Opts = []OptCfg{opt("bool", "b", 1), multi("islice", "n", 1, 1, 2), multi("fslice", "f", 1, 1, 2), multi("smap", "m", 1, 1, 2)}
